@@ -1288,3 +1288,69 @@ def _mesh_axis(t):
 add("buildMeshAxis", "Sched", ["C10", "C07"], "acryo/backend/_mesh.py", "lets",
     [("max_shifts", R), ("upsample", I), ("shape", I)], _mesh_axis,
     subst={"np.asarray(max_shifts)": "max_shifts", "np.array(shape)": "shape"})
+
+
+# ==========================================================================================
+# C14  tomogram simulation
+# ==========================================================================================
+_SIM = "acryo/simulator.py"
+
+
+def _prep_iter(t):
+    fn = func(t, "_prep_iterators")
+    oc = kwarg(call(fn, "_compose_affine_matrices"), "output_center")
+    return ([("pos", assign_rhs(fn, "pos")), ("intpos", assign_rhs(fn, "intpos")),
+             ("residue", assign_rhs(fn, "residue")), ("center", assign_rhs(fn, "center")),
+             ("int_center", assign_rhs(fn, "int_center")), ("starts", assign_rhs(fn, "starts")),
+             ("stops", assign_rhs(fn, "stops")), ("output_center", oc)],
+            ["starts", "stops", "center", "output_center"])
+
+
+add("simPrep", "Sim", ["C14"], _SIM, "lets", [("p", R), ("scale", R), ("shape", I)], _prep_iter,
+    subst={"mol.pos": "p", "np.array(shape)": "shape"})
+add("simMatrixStructure", "Sim", ["C14"], _SIM, "const", [],
+    pattern(lambda t: (_has(ast.unparse(func(t, "_prep_iterators")),
+                            "mtxs = _compose_affine_matrices(center, mol.rotator.inv(), output_center=")
+                       and _has(ast.unparse(func(t, "_compose_affine_matrices")),
+                                "translation_1[:, :3, 3] = -output_center", "rot_mtx[:, :3, :3] = rotator.as_matrix()",
+                                "np.einsum('ij,njk,nkl->nil', translation_0, rot_mtx, translation_1)"))))
+add("simAccumulates", "Sim", ["C14"], _SIM, "const", [],
+    pattern(lambda t: (_has(ast.unparse(func(t, "TomogramSimulator._simulate")),
+                            "tomogram = np.zeros(shape, dtype=np.float32)",
+                            "for mol, image in self._components.values():",
+                            "starts, stops, mtxs = _prep_iterators(mol, img.shape, self._scale)",
+                            "for start, stop, mtx in zip(starts, stops, mtxs):",
+                            "pool.add_task(img, start, stop, mtx, shape, self.order)",
+                            "tomogram[sl] += img_fragment")
+                       and _has(ast.unparse(func(t, "_simulate_one")),
+                                "sl_src, sl_dst = _prep_slices(start, stop, shape, img.shape)",
+                                "return ((slice(None),), None)", "return (sl_dst, transformed[sl_src])"))))
+
+
+def _sim2d(t):
+    src = ast.unparse(func(t, "TomogramSimulator.simulate_2d"))
+    if "[1:]" in src:
+        raise SelectorMiss("simulate_2d slices its per-molecule iterators")
+    _has(src, "starts, stops, mtxs = _prep_iterators(mol, img.shape, self._scale)",
+         "for start, stop, mtx in zip(starts, stops, mtxs):", "pool.add_task(img, start, stop, mtx, shape3d, self.order)",
+         "projection[sl] += img_fragment")
+    _has(ast.unparse(func(t, "_simulate_2d_one")), "projected = np.sum(transformed[sl_src], axis=0)",
+         "return (sl_dst[1:], projected)")
+    return True
+
+
+add("sim2dProjectsEveryMolecule", "Sim", ["C14"], _SIM, "const", [], pattern(_sim2d))
+add("sim2dZSize", "Sim", ["C14"], _SIM, "expr", [("zmax", R), ("scale", R), ("sumshape", I)],
+    lambda t: assign_rhs(func(t, "TomogramSimulator.simulate_2d"), "zsize"),
+    subst={"mol.pos[:, 0].max()": "zmax", "self.scale": "scale", "np.sum(img.shape)": "sumshape"})
+
+
+def _prep_slices_axis(t):
+    fn = func(t, "_prep_slices")
+    _has(ast.unparse(fn), "_sl, _pads, _out_of_bound = _utils.make_slice_and_pad(s, e, size)",
+         "except ValueError:", "return ((slice(None),), None)", "sl_dst_list.append(_sl)",
+         "s0, s1 = _pads", "sl_src_list.append(slice(s0, tsize - s1))", "sl_src_list.append(slice(None))")
+    return True
+
+
+add("simClipUsesSlicePad", "Sim", ["C14"], _SIM, "const", [], pattern(_prep_slices_axis))
